@@ -7,13 +7,16 @@ EXTENDS Comments, Json
 CONSTANTS
   PairMode,    \* "none" | "near" | "all": which pairs of slots are enumerated
   NearDist,    \* for "near": slots at most this far apart
-  PairKinds    \* "same" | "all": comment kinds of a pair
+  PairKinds    \* "same" | "some" | "all": comment kinds of a pair
 
 VARIABLE case
 
 SinglesOf(t) == {[t |-> t, slots |-> <<j>>, kinds |-> <<k>>] : j \in Slots(t), k \in CommentKinds}
 
-KindPairs == IF PairKinds = "same" THEN {<<k, k>> : k \in CommentKinds} ELSE CommentKinds \X CommentKinds
+KindPairs ==
+  CASE PairKinds = "same" -> {<<k, k>> : k \in CommentKinds}
+    [] PairKinds = "some" -> {<<"block", "block">>, <<"line", "line">>, <<"line", "block">>, <<"doc", "line">>}
+    [] OTHER -> CommentKinds \X CommentKinds
 
 PairsOf(t) ==
   IF PairMode = "none" THEN {}
@@ -25,7 +28,7 @@ Cases == UNION {SinglesOf(t) \cup PairsOf(t) : t \in 1..NTemplates}
 
 (* the comments of a case as the model sees them *)
 ModelComments(c) ==
-  [i \in 1..Len(c.slots) |-> [imp |-> ImportOf(c.t, c.slots[i]),
+  [i \in 1..Len(c.slots) |-> [imp |-> ImportOf(c.t, c.slots[i]), mem |-> MemberOf(c.t, c.slots[i]),
                               cls |-> SlotClass(c.t, c.slots[i], c.kinds[i])]]
 ModelOrder(c) == ExpectedOrder(ModelComments(c), ImportNames(c.t))
 
@@ -46,10 +49,7 @@ OnlyImportCommentsMove ==
       o == ModelOrder(case)
       At(i) == CHOOSE q \in 1..Len(o) : o[q] = i
   IN  \A i, j \in 1..Len(cm) :
-        i < j =>
-          \/ At(i) < At(j)
-          \/ (cm[i].imp # 0 /\ cm[j].imp # 0 /\ cm[i].imp # cm[j].imp
-              /\ StrLess(ImportNames(case.t)[cm[j].imp], ImportNames(case.t)[cm[i].imp]))
+        i < j => (At(i) < At(j) \/ (cm[i].imp # 0 /\ cm[j].imp # 0))
 ImportGroupsSorted ==
   LET cm == ModelComments(case)
       o == ModelOrder(case)
